@@ -239,6 +239,22 @@ def _cases_core(rng, tier):
         if rng.random() < 0.1 and vs:
             vs[rng.randrange(len(vs))] = 1 << f
         yield "convertbits %s %d %d %s" % (impl.lst(str, vs), f, t, rng.choice("01")), "convertbits"
+    # prefix relations: a checksum-valid address whose REAL prefix extends the requested one ("bc" + "1" + more, the
+    # separator being the LAST '1'), is a proper prefix of it, or differs in one character — asked for under `hrp`
+    for hrp_ in ("bc", "tb", "bcrt"):
+        for _ in range(3 if tier == "quick" else 40):
+            ver_ = rng.choice([0, 1, 16])
+            prog_ = rb(rng.choice([20, 32]) if ver_ == 0 else rng.choice([2, 20, 32, 40]))
+            ext = "".join(rng.choice(B32.replace("1", "") + "1") for _ in range(rng.randint(0, 4)))
+            for real in (hrp_ + "1" + ext, hrp_ + "11", hrp_[:-1], hrp_ + rng.choice("qpzx"), "1" + hrp_, hrp_ + "1"):
+                if not real or len(real) > 60:
+                    continue
+                a = indep_encode(real, ver_, prog_)
+                if a is None:
+                    continue
+                yield "b32_dec %s %s" % (sx(hrp_), sx(a)), "hrp-prefix-relation"
+                yield "b32_dec %s %s" % (sx(hrp_), sx(a.upper())), "hrp-prefix-relation"
+                yield "b32_dec %s %s" % (sx(real), sx(a)), "hrp-prefix-relation-own"
     # a valid address with one line terminator / blank / control / invisible character in front of it or behind it
     for hrp_, ver_, ln_ in (("bc", 0, 20), ("tb", 0, 32), ("bc", 1, 32), ("bcrt", 16, 2)):
         good = indep_encode(hrp_, ver_, rb(ln_))
